@@ -310,6 +310,22 @@ func c15DedupSort(p *chk.Prog, r *chk.Report) {
 				}
 			}
 		}
+		if _, isPtr := f.Info().TypeOf(nb).Underlying().(*types.Pointer); isPtr && !okDedup && okOrder {
+			// the map holds pointers: what is stored is the record itself, and whatever the rest of the iteration does
+			// to it is seen through the map - every iteration must end with the list de-duplicated and sorted
+			ends := g.LoopIteration(sessLoop, chk.GAnd(chk.GEvent(dedup), chk.GEvent(srt)))
+			okDedup = len(ends) > 0
+			for _, e := range ends {
+				if !e.OK {
+					okDedup = false
+				}
+			}
+			for _, ss := range g.Find(srt) {
+				if !g.AfterLoop(ss, advLoop) {
+					okDedup = false
+				}
+			}
+		}
 		x.Check("updateConfig:allowed-deduplicated-and-sorted", s.Pos(), okDedup, "", "a neighbour can be stored with allowed prefixes that are not de-duplicated and sorted (after all advertisements were added)")
 		// keyed by the session's own name
 		key := s.Node.(*ast.AssignStmt).Lhs[0].(*ast.IndexExpr).Index
@@ -497,7 +513,7 @@ func c15Password(p *chk.Prog, r *chk.Report) {
 				continue
 			}
 			n++
-			emptyRef := pf.MatchNew("v1.SecretReference{}", rr[1]) != nil
+			emptyRef := pf.MatchNew("v1.SecretReference{}", rr[1]) != nil || zeroValueVar(pf, rr[1])
 			if emptyRef {
 				// without a reference the password is the effective plain-text one: the secret's content when the
 				// peer has one, else spec.password (or nothing for an unknown back end)
